@@ -4,6 +4,7 @@
   range [startK, stopK) of a generation holds exactly its field keys), and what a write on a dead hash does.
 -/
 import ZanVerif.Data.HashTTLExec
+import ZanVerif.Data.HashTTLIncrErr
 import ZanVerif.Data.HeaderLemmas
 import ZanVerif.Data.Range
 import ZanVerif.Props.C12
@@ -12,7 +13,7 @@ namespace Z.HashTTLExec
 open Z.Ref (get put del scan Sorted get_put get_del put_sorted del_sorted mem_scan)
 open Z.Codec (be64 toU64 ofU64 fromBE be64_length verKey collSubKey collStart collStop tablePrefix be16 inI64 encInt_length)
 open Z.Header
-open Z.KVExec (KErr Reply errOf eerr tooBig stripTs RdRes)
+open Z.KVExec (KErr Reply errOf eerr tooBig stripTs RdRes PRes parseInt fmtInt wrap64)
 
 theorem hash_ne_kv : Gen.cHashType ≠ Gen.cKVType := by decide
 
@@ -103,15 +104,25 @@ def newMeta (ver : Int) (n : Int) : Bytes := encFixed 0 ver ++ be64 (toU64 n)
 def renewed (m : List KV) (table k : Bytes) (ts : Int) (f v : Bytes) : List KV :=
   put (put m (metaK table k) (newMeta ts 1)) (fieldK table k ts f) (v ++ be64 (toU64 ts))
 
+/-- `hSetField` on a dead hash (meta absent, or expired at the log time) whose new field key is not stored:
+    a new generation with version = log timestamp, size 1, no expiry -/
+theorem hsetField_dead {m : List KV} (table k f v : Bytes) (ts : Int) (nx : Bool) (h : Hdr) (ex : Bool)
+    (hmv : mview m ts table k = .mv h ex) (hne : notExist h ex = true)
+    (hfresh : get m (fieldK table k ts f) = none) :
+    hsetField m ts nx table k f v = (renewed m table k ts f v, .int 1) := by
+  unfold hsetField renewed
+  simp only [hmv, prepare, hne, if_true, renew, hfresh, hIncrSize, sizeI_none]
+  simp [newMeta, encode]
+
 /-- HSET / HSETNX on a dead hash (meta absent, or expired at the log time) whose new field key is not stored:
     a new generation with version = log timestamp, size 1, no expiry -/
 theorem hset_dead {m : List KV} (table k f v : Bytes) (ts : Int) (nx : Bool) (h : Hdr) (ex : Bool)
     (hmv : mview m ts table k = .mv h ex) (hne : notExist h ex = true)
     (hfresh : get m (fieldK table k ts f) = none) (hb : tooBig v = false) :
     hset m ts nx table k f v = (renewed m table k ts f v, .int 1) := by
-  unfold hset renewed
-  simp only [hb, Bool.false_eq_true, if_false, hmv, prepare, hne, if_true, renew, hfresh, hIncrSize, sizeI_none]
-  simp [newMeta, encode]
+  unfold hset
+  simp only [hb, Bool.false_eq_true, if_false]
+  exact hsetField_dead table k f v ts nx h ex hmv hne hfresh
 
 theorem renewed_sorted {m : List KV} (hs : Sorted m) (table k : Bytes) (ts : Int) (f v : Bytes) :
     Sorted (renewed m table k ts f v) := put_sorted (put_sorted hs _ _) _ _
@@ -141,5 +152,35 @@ theorem mview_renewed {m : List KV} (hs : Sorted m) (table k : Bytes) (ts : Int)
   simp only [newMeta]
   rw [decode_encFixed 0 ts _ (by decide), ofU64_toU64 hi]
   simp [isExpired_zero]
+
+
+/-! ### HINCRBY -/
+
+theorem wrap64_of {x : Int} (h : inI64 x) : wrap64 x = x := by
+  unfold wrap64 ofU64 toU64; unfold inI64 at h; omega
+
+/-- the regenerated "field is missing" guard of `HIncrBy` is the model's `notExist` exactly when the code asks
+    `hGetRawFieldValue` to check expiry -/
+theorem hincrFieldMissing_eq (h : Hdr) (ex : Bool) : Gen.hincrFieldMissing ex h.user.isNone = notExist h ex := by
+  simp [Gen.hincrFieldMissing, Gen.hgetRawMissing, Gen.hincrCheckExpired, Gen.notExistOrExpired, notExist]
+
+/-- HINCRBY on a dead hash (meta absent, or expired at the log time) whose new field key is not stored: the old value
+    counts as 0 whatever the dead generation holds; a new generation (version = log timestamp, size 1, no expiry) with the
+    one field `f = d` -/
+theorem hincrby_dead {m : List KV} (table k f : Bytes) (ts d : Int) (h : Hdr) (ex : Bool)
+    (hmv : mview m ts table k = .mv h ex) (hne : notExist h ex = true)
+    (hfresh : get m (fieldK table k ts f) = none) (hd : inI64 d) :
+    hincrby m ts table k f d = (renewed m table k ts f (fmtInt d), .int d) := by
+  unfold hincrby hincrFinish
+  simp only [hmv, hincrCur, hincrFieldMissing_eq, hne, if_true, Int.zero_add, wrap64_of hd]
+  rw [hsetField_dead table k f (fmtInt d) ts Gen.hincrCheckNX h ex hmv hne hfresh]
+
+/-- HINCRBY on a hash that is live at the log time: the value of the field key of the LIVE generation is parsed (without
+    its modification time), and a successful increment is an `hSetField` of the decimal text -/
+theorem hincrby_live {m : List KV} (table k f : Bytes) (ts d : Int) (h : Hdr) (ex : Bool)
+    (hmv : mview m ts table k = .mv h ex) (hlive : notExist h ex = false) :
+    hincrby m ts table k f d = hincrFinish m ts table k f d (get m (fieldK table k h.ver f)) := by
+  unfold hincrby
+  simp only [hmv, hincrCur, hincrFieldMissing_eq, hlive, Bool.false_eq_true, if_false]
 
 end Z.HashTTLExec
